@@ -380,6 +380,24 @@ func (c *FuncCtx) execFor(fr *frame, n *ast.ForStmt, st *State, k func(*State)) 
 		head := s0.clone()
 		as := c.assignedIn(n.Body, n.Post)
 		c.havoc(head, as, fmt.Sprintf("loop%d", ord))
+		// loop <n> assigns <slices>: the iterations write only there.  Assumed at the head (relative
+		// to the state before the loop), owed by every iteration (loop-frame obligation below).
+		var loopRegions []region
+		if len(ls.Assigns) > 0 {
+			var rfacts []*Term
+			loopRegions = c.regions(c.specEnv(s0, &rfacts), ls.Assigns)
+			for _, f := range rfacts {
+				head.assume(f)
+			}
+			for _, h := range sortedHeapNames(head.heaps) {
+				before, ok := s0.heaps[h]
+				if !ok || before.Key() == head.heaps[h].Key() {
+					continue
+				}
+				p := Var(c.freshName("p"), SInt)
+				head.assume(Forall([]*Term{p}, []*Term{Select(head.heaps[h], p)}, Implies(outsideAll(p, loopRegions, h), Eq(Select(head.heaps[h], p), Select(before, p)))))
+			}
+		}
 		c.assumeInvariants(head, ls)
 		headSnap := head.clone()
 		// iteration
@@ -407,6 +425,16 @@ func (c *FuncCtx) execFor(fr *frame, n *ast.ForStmt, st *State, k func(*State)) 
 					hf = append(c.evalHints(s3, ls.Lemmas, env, c.con.File), facts...)
 				}
 				c.checkInvariants(s3, ls, ord, "inv-pres", headSnap, n, hf)
+				if len(ls.Assigns) > 0 {
+					for _, h := range sortedHeapNames(s3.heaps) {
+						hh, ok := headSnap.heaps[h]
+						if !ok || hh.Key() == s3.heaps[h].Key() {
+							continue
+						}
+						p := Var(c.freshName("p"), SInt)
+						c.oblige(s3, "loop-frame", fmt.Sprintf("loop%d.%s", ord, h), Implies(outsideAll(p, loopRegions, h), Eq(Select(s3.heaps[h], p), Select(hh, p))), n)
+					}
+				}
 				if decr0 != nil {
 					d1 := c.specEnv(s3, nil).Int(ls.Decreases.Expr)
 					c.oblige(s3, "decreases", fmt.Sprintf("loop%d", ord), And(Le(ConstI(0), decr0), Lt(d1, decr0)), n)
